@@ -97,6 +97,12 @@ type Binding struct {
 	// OutCSameDir puts the -out path into the directory of the package itself (custom.go next to the setup file)
 	// instead of a directory of its own below it; only for models without the state "noparent"
 	OutCSameDir bool
+	// BareMod writes the module file without a go line (`module fsw` alone): a file the go command would
+	// complete if it were allowed to write it
+	BareMod bool
+	// Env is appended to the environment of every run (later entries win: "GOFLAGS=" runs the tool with the
+	// go command's own defaults instead of the -mod=mod this sandbox exports)
+	Env []string
 }
 
 // TolerateFailedReference lets a binding survive an accepted input whose reference run fails with diagnostics
@@ -302,6 +308,9 @@ func (w *World) writeSetup(v string) {
 			}
 		}
 		files := map[string]string{"go.mod": "module " + modPath + "\n\ngo 1.19\n"}
+		if w.b.BareMod {
+			files["go.mod"] = "module " + modPath + "\n"
+		}
 		for p, c := range in.Rest {
 			files[p] = c
 		}
